@@ -10,8 +10,9 @@ import traceback
 from . import core
 
 FINDINGS_FILE = os.path.join(core.VERIF, "KNOWN_FINDINGS.txt")
-EVIDENCE_DIR = os.path.join(core.VERIF, "evidence" if core.REPO == "/repo" else ".work/evidence-alt")
-REPLAY_DIR = os.path.join(core.VERIF, "replays" if core.REPO == "/repo" else ".work/replays-alt")
+_ALT = core.REPO != "/repo" or bool(os.environ.get("VF_SCRATCH"))
+EVIDENCE_DIR = os.path.join(core.VERIF, ".work/evidence-alt" if _ALT else "evidence")
+REPLAY_DIR = os.path.join(core.VERIF, ".work/replays-alt" if _ALT else "replays")
 
 
 def pmap(func, items, workers=None, chunksize=1):
